@@ -7,8 +7,8 @@ import z3
 from .extract import OK, FULL, CLOSED, EMPTY
 
 W = 64      # width of operation results (mirsym path conditions are over 64-bit terms)
-SW = 8      # width of the shared-state variables (counters, FIFO lengths, items): small bounded values
-NW = 16     # width of control variables (node ids, call index, scheduler choice)
+SW = int(__import__('os').environ.get('CFABMC_SW', '8'))      # width of the shared-state variables (counters, FIFO lengths, items): small bounded values
+NW = int(__import__('os').environ.get('CFABMC_NW', '16'))     # width of control variables (node ids, call index, scheduler choice)
 
 
 def BV(x):
@@ -150,7 +150,7 @@ class System:
             if t.calls:
                 S.add(z3.Or([z3.And(vs[0] == k, st0["node"][ti] == r) for k, r in enumerate(t.calls[0])]))
             else:
-                S.add(st0["node"][ti] == NV(0xFFFF))
+                S.add(st0["node"][ti] == NV((1 << NW) - 1))
         for s in range(K):
             self._step(s)
         # optional context bound: number of preemptions (the scheduler leaves a thread that could still move)
@@ -305,7 +305,7 @@ class System:
                     for ci, roots in enumerate(t.calls):
                         for k, r in enumerate(roots):
                             opts.append(z3.And(nxt_call == ci, self.variant[ti][ci] == k, nxt["node"][ti] == r))
-                    done = z3.And(z3.UGE(nxt_call, NV(len(t.calls))), nxt["node"][ti] == NV(0xFFFF - ch.id))
+                    done = z3.And(z3.UGE(nxt_call, NV(len(t.calls))), nxt["node"][ti] == NV((1 << NW) - 1 - ch.id))
                     S.add(z3.Implies(cond, z3.And(nxt["call"][ti] == nxt_call, z3.Or(opts + [done]))))
                 else:
                     S.add(z3.Implies(cond, z3.And(nxt["node"][ti] == ch.id, nxt["call"][ti] == cur["call"][ti])))
@@ -341,7 +341,7 @@ class System:
 
     # ---- queries
     def finished(self, ti, s):
-        return z3.UGE(self.st[s]["node"][ti], NV(0x8000))
+        return z3.UGE(self.st[s]["node"][ti], NV(1 << (NW - 1)))
 
     def at_op(self, ti, s, opname):
         """thread ti is about to execute `opname` (its guard holds) in state s"""
@@ -373,7 +373,7 @@ class System:
         t = self.threads[ti]
         ids = [n.id for n in t.nodes if n.leaf and pred(n)]
         # a finished thread records the last leaf as -1-id; intermediate leaves are passed through: use moved transitions
-        return z3.Or([self.st[s]["node"][ti] == NV(0xFFFF - i) for i in ids]) if ids else z3.BoolVal(False)
+        return z3.Or([self.st[s]["node"][ti] == NV((1 << NW) - 1 - i) for i in ids]) if ids else z3.BoolVal(False)
 
     def check(self, bad, timeout_ms=600000):
         self.solver.push()
@@ -394,7 +394,7 @@ class System:
             ti = model.eval(self.who[s]).as_long()
             t = self.threads[ti]
             nid = model.eval(self.st[s + 1]["node"][ti]).as_long()
-            if nid < 0x8000 and not t.nodes[nid].leaf and t.nodes[nid].op != "start":
+            if nid < (1 << (NW - 1)) and not t.nodes[nid].leaf and t.nodes[nid].op != "start":
                 n = t.nodes[nid]
                 r = model.eval(n.ret, model_completion=True).as_long()
                 out.append(f"{t.name}: {n.op}({n.target}{',' + str(n.arg) if n.arg is not None else ''}) -> {r}")
